@@ -75,7 +75,9 @@ def trees(tier):
     size1 += [['where', 'r1', 'r2', 'pa'], ['where', 'r2', 'r1', 'k'], ['where', 'pa', 'pb', 'r1'], ['pipe', 'r1', 'k'], ['pipe', 'pa', 'r2'], ['pipe', 'r1', 'pb'],
               ['and_', 'r1', 'r2'], ['or_', 'r1', 'pa'], ['not_', 'r1'], ['bool', 'pa'], ['is_', 'r1', 'k'], ['is_not', 'r1', 'r2'], ['in_', 'r1', 'lst'],
               ['len', 'lst'], ['index', 'lst', 'k0'], ['index', 'lst', 'ri'], ['map', 'lst'], ['method', 'r1'], ['attr', 'cplx'], ['neg', 'r1'], ['abs', 'pa'],
-              ['bindexpr', 'r1', 'pa'], ['call2', 'r1', 'r2']]
+              ['bindexpr', 'r1', 'pa'], ['call2', 'r1', 'r2'],
+              ['pipekw', 'r1', 'r2'], ['pipekw', 'pa', 'pb'], ['pipekw', 'r1', 'bf'], ['mapkw', 'lst', 'r2'], ['methodkw', 'r2'],
+              ['in_', 'r1', 'pl'], ['bin', 'mul', 'r1', 'plen'], ['index', 'plr', 'k0']]
     out += size1
     # size 2: an operation over a size-1 node (shared sub-expression, input reused as argument, nested where / pipe)
     inner = [['bin', 'add', 'r1', 'r2'], ['bin', 'truediv', 'r1', 'pa'], ['bin', 'mul', 'pa', 'pb'], ['where', 'r1', 'r2', 'pa'], ['pipe', 'r1', 'k'],
@@ -100,13 +102,14 @@ class World:
         import param
         reset_globals()
         self.param = param
-        self.P = type('P', (param.Parameterized,), {'a': param.Parameter(default=INIT['a']), 'b': param.Parameter(default=INIT['b'])})()
+        self.P = type('P', (param.Parameterized,), {'a': param.Parameter(default=INIT['a']), 'b': param.Parameter(default=INIT['b']),
+                                                    'items': param.List(default=[6, 1])})()
         self.r1 = param.rx(INIT['r1'])
         self.r2 = param.rx(INIT['r2'])
         self.lst = param.rx([1, 2, 3])
         self.ri = param.rx(1)
         self.cplx = param.rx(3 + 4j)
-        self.vals = dict(INIT, lst=[1, 2, 3], ri=1, cplx=3 + 4j)
+        self.vals = dict(INIT, lst=[1, 2, 3], ri=1, cplx=3 + 4j, items=[6, 1])
         self.built = {}
 
     def leaf(self, name, as_root):
@@ -131,6 +134,12 @@ class World:
             return self.ri
         if name == 'cplx':
             return self.cplx
+        if name == 'pl':
+            return self.P.param.items
+        if name == 'plr':
+            return self.P.param.items.rx()
+        if name == 'plen':
+            return self.param.bind(len, self.P.param.items)
         raise KeyError(name)
 
     def build(self, t, as_root=True, wrap=True):
@@ -182,13 +191,19 @@ class World:
             return self.param.rx(self.param.bind(lambda x, y: x - y, self.build(t[1]), self.build(t[2], False)))
         if k == 'call2':
             return self.build(t[1]).rx.pipe(pow, self.build(t[2], False))
+        if k == 'pipekw':
+            return self.build(t[1]).rx.pipe(lambda x, y=None: (x, y), y=self.build(t[2], False))
+        if k == 'mapkw':
+            return self.build(t[1]).rx.map(lambda x, k=None: (x, k), k=self.build(t[2], False))
+        if k == 'methodkw':
+            return self.param.rx('{a}-{b}').format(a=self.build(t[1], False), b=7)
         raise KeyError(k)
 
     def plain(self, t):
         v = self.vals
         if isinstance(t, str):
             return {'r1': v['r1'], 'r2': v['r2'], 'pa': v['a'], 'pb': v['b'], 'bf': v['a'] * 10, 'k': 5, 'k0': 0, 'lst': v['lst'], 'ri': v['ri'],
-                    'cplx': v['cplx']}[t] if t != 'bf' else v['a'] * 10
+                    'cplx': v['cplx'], 'pl': v['items'], 'plr': v['items'], 'plen': len(v['items'])}[t]
         k = t[0]
         if k == 'bin':
             x = self.plain(t[2])
@@ -232,6 +247,12 @@ class World:
             return self.plain(t[1]) - self.plain(t[2])
         if k == 'call2':
             return pow(self.plain(t[1]), self.plain(t[2]))
+        if k == 'pipekw':
+            return (self.plain(t[1]), self.plain(t[2]))
+        if k == 'mapkw':
+            return [(x, self.plain(t[2])) for x in self.plain(t[1])]
+        if k == 'methodkw':
+            return '{a}-{b}'.format(a=self.plain(t[1]), b=7)
         raise KeyError(k)
 
     def update(self, op):
@@ -249,10 +270,16 @@ class World:
             self.lst.rx.value = val
         elif name == 'ri':
             self.ri.rx.value = val
+        elif name == 'items':
+            # in-place mutation announced with param.trigger (the object stays the same)
+            self.P.items.append(val[-1])
+            self.vals['items'] = list(self.P.items)
+            self.P.param.trigger('items')
 
 
 UPDATES = [['set', 'r1', 0], ['set', 'r1', 7], ['set', 'r2', 0], ['set', 'r2', 4], ['set', 'a', 0], ['set', 'a', 9], ['set', 'b', 5], ['set', 'b', 0]]
-EXTRA_UPDATES = {'lst': [['set', 'lst', [5]], ['set', 'lst', [7, 8, 9, 10]]], 'ri': [['set', 'ri', 2], ['set', 'ri', 9]]}
+EXTRA_UPDATES = {'lst': [['set', 'lst', [5]], ['set', 'lst', [7, 8, 9, 10]]], 'ri': [['set', 'ri', 2], ['set', 'ri', 9]],
+                 "'pl": [['set', 'items', [0]], ['set', 'items', [7]]]}
 
 
 def uses(t, name):
@@ -339,7 +366,7 @@ class C09(Harness):
         for extra, lst in EXTRA_UPDATES.items():
             if uses(t, extra):
                 ups += lst
-        alphabet = ups + [['read']]
+        alphabet = ups + [['read'], ['derive']]
         vs = []
         n = 0
         key = dict(tree=repr(t)[:80], watch=watch)
@@ -357,10 +384,26 @@ class C09(Harness):
                 calls = []
                 if watch:
                     E.rx.watch(lambda v: calls.append(v))
+                derived = 0
+                state = {'derived': 0}
+
+                def pl():
+                    return ('d', w.plain(t)) if state['derived'] else w.plain(t)
                 for step, op in enumerate(hist):
                     last = step == len(hist) - 1
+                    if op[0] == 'derive':
+                        # a new expression is derived from the (possibly already read, possibly stale) one in the middle of the history
+                        if derived or watch:
+                            break
+                        try:
+                            E = E.rx.pipe(lambda v: ('d', v))
+                        except Exception:
+                            break                     # (building on an expression that currently raises evaluates it)
+                        derived = 1
+                        state['derived'] = 1
+                        continue
                     if op[0] == 'read':
-                        exp = outcome(lambda: w.plain(t))
+                        exp = outcome(pl)
                         got = outcome(lambda: E.rx.value)
                         if last:
                             bad = self.differs(exp, got)
@@ -368,24 +411,24 @@ class C09(Harness):
                                 vs.append(V('stale-or-wrong-value', 'tree %r history %r: plain evaluation %r, expression %r' % (t, list(hist), exp, got),
                                             kind=bad, **key))
                     else:
-                        before = outcome(lambda: w.plain(t))
+                        before = outcome(pl)
                         del calls[:]
                         try:
                             w.update(op)
                         except Exception as e:
                             # with a watcher attached the evaluation runs inside the update; an error of the expression itself may surface here
-                            cur = outcome(lambda: w.plain(t))
+                            cur = outcome(pl)
                             if not watch and last and not (cur[0] == 'exc' and cur[1] == type(e).__name__):
                                 vs.append(V('update-raises', 'tree %r history %r: update raised %r' % (t, list(hist), e), **key))
                             continue
-                        after = outcome(lambda: w.plain(t))
+                        after = outcome(pl)
                         if watch and last and after[0] == 'ok' and (before[0] != 'ok' or not same(before[1], after[1])):
                             if not calls or not same(calls[-1], after[1]):
                                 vs.append(V('watch-not-called-with-fresh-value', 'tree %r history %r: value changed %r -> %r but the .rx.watch callback saw %r' % (
                                     t, list(hist), before, after, calls), **key))
                 # closing read: whatever the history, the expression must now agree with plain Python
                 if not vs:
-                    exp = outcome(lambda: w.plain(t))
+                    exp = outcome(pl)
                     got = outcome(lambda: E.rx.value)
                     bad = self.differs(exp, got)
                     if bad:
@@ -397,7 +440,7 @@ class C09(Harness):
                                 w.update(['set', name, val])
                             except Exception:
                                 pass        # (a watcher evaluates inside the update; intermediate input combinations may still be invalid)
-                        exp = outcome(lambda: w.plain(t))
+                        exp = outcome(pl)
                         got = outcome(lambda: E.rx.value)
                         bad = self.differs(exp, got)
                         if bad:
